@@ -117,6 +117,80 @@ theorem vol6_opT (pos : Nat → V3 R) (D : List Tri) : vol6 pos (opT D) = - vol6
     rw [this, List.map_cons, List.sum_cons, ih, List.map_cons, List.sum_cons, tet6_swap]
     ring
 
+/-- the three edge terms of the triangles of a surface, summed, are the sum over its half-edge multiset -/
+theorem sum_edge_terms_eq (g : HE → R) (T : List Tri) :
+    (T.map (fun t => g (t.1, t.2.1) + g (t.2.1, t.2.2) + g (t.2.2, t.1))).sum = ((heM T).map g).sum := by
+  induction T with
+  | nil => simp [heM]
+  | cons t T ih =>
+    have : heM (t :: T) = heTriM t + heM T := by simp [heM]
+    rw [this, Multiset.map_add, Multiset.sum_add, List.map_cons, List.sum_cons, ih]
+    congr 1
+    simp only [heTriM, Multiset.insert_eq_cons, Multiset.map_cons, Multiset.map_singleton, Multiset.sum_cons,
+      Multiset.sum_singleton]
+    ring
+
+section ordered
+variable [LinearOrder R] [IsStrictOrderedRing R]
+
+/-- an antisymmetric function of directed edges sums to zero over a closed surface -/
+theorem closed_antisym_sum_zero (T : List Tri) (h : Closed T) (g : Nat → Nat → R) (hg : ∀ i j, g j i = - g i j) :
+    (T.map (fun t => g t.1 t.2.1 + g t.2.1 t.2.2 + g t.2.2 t.1)).sum = 0 := by
+  have h1 := sum_edge_terms_eq (fun e : HE => g e.1 e.2) T
+  simp only at h1
+  rw [h1]
+  have h2 : ((heM T).map (fun e : HE => g e.1 e.2)).sum = (((heM T).map Prod.swap).map (fun e : HE => g e.1 e.2)).sum := by
+    rw [h]
+  rw [Multiset.map_map] at h2
+  have h3 : ((heM T).map ((fun e : HE => g e.1 e.2) ∘ Prod.swap)).sum = - ((heM T).map (fun e : HE => g e.1 e.2)).sum := by
+    rw [← Multiset.sum_map_neg]
+    congr 1
+    apply Multiset.map_congr rfl
+    intro e _
+    simp only [Function.comp, Prod.fst_swap, Prod.snd_swap, hg e.1 e.2]
+  rw [h3] at h2
+  linarith
+
+theorem tet6_shift (a b c o : V3 R) :
+    tet6 (a - o) (b - o) (c - o)
+      = tet6 a b c - (V3.dot o (V3.cross a b) + V3.dot o (V3.cross b c) + V3.dot o (V3.cross c a)) := by
+  simp only [tet6, V3.dot_def, V3.cross_def, V3.sub_x, V3.sub_y, V3.sub_z]; ring
+
+theorem foldl_add_eq_sum' {α : Type} (f : α → R) (T : List α) (s : R) :
+    T.foldl (fun s t => s + f t) s = s + (T.map f).sum := by
+  induction T generalizing s with
+  | nil => simp
+  | cons t T ih => rw [List.foldl_cons, ih]; simp [add_assoc]
+
+theorem sum_map_sub'' {α : Type} (L : List α) (u v : α → R) :
+    (L.map (fun a => u a - v a)).sum = (L.map u).sum - (L.map v).sum := by
+  induction L with
+  | nil => simp
+  | cons a t ih => simp only [List.map_cons, List.sum_cons, ih]; ring
+
+/-- **closed surfaces**: the sum of the triple products of the positions seen from ANY point `o` is the un-centred one -/
+theorem tet6_sum_rel_closed (pos : Nat → V3 R) (T : List Tri) (h : Closed T) (o : V3 R) :
+    (T.map (fun t => tet6 (pos t.1 - o) (pos t.2.1 - o) (pos t.2.2 - o))).sum
+      = (T.map (fun t => tet6 (pos t.1) (pos t.2.1) (pos t.2.2))).sum := by
+  have e : (fun t : Tri => tet6 (pos t.1 - o) (pos t.2.1 - o) (pos t.2.2 - o))
+      = fun t => tet6 (pos t.1) (pos t.2.1) (pos t.2.2)
+          - ((fun i j => V3.dot o (V3.cross (pos i) (pos j))) t.1 t.2.1
+            + (fun i j => V3.dot o (V3.cross (pos i) (pos j))) t.2.1 t.2.2
+            + (fun i j => V3.dot o (V3.cross (pos i) (pos j))) t.2.2 t.1) := by
+    funext t; exact tet6_shift _ _ _ _
+  rw [e, sum_map_sub'', closed_antisym_sum_zero T h (fun i j => V3.dot o (V3.cross (pos i) (pos j))) (fun i j => by
+    simp only [V3.dot_def, V3.cross_def]; ring), sub_zero]
+
+/-- **closed surfaces**: the centred sum the code accumulates (`vol6c`: coordinates relative to the first node of the first
+    face) is the un-centred signed volume `vol6` of the theorems -/
+theorem vol6c_eq_vol6 (pos : Nat → V3 R) (T : List Tri) (h : Closed T) : vol6c pos T = vol6 pos T := by
+  unfold vol6c
+  simp only []
+  rw [foldl_add_eq_sum' (fun t : Tri => tet6 (pos t.1 - volRef pos T) (pos t.2.1 - volRef pos T) (pos t.2.2 - volRef pos T)),
+    tet6_sum_rel_closed pos T h, vol6_eq_sum, lit_zero, zero_add]
+
+end ordered
+
 theorem vol6_perm (pos : Nat → V3 R) {A B : List Tri} (h : A.Perm B) : vol6 pos A = vol6 pos B := by
   rw [vol6_eq_sum, vol6_eq_sum]
   exact (h.map _).sum_eq
